@@ -149,19 +149,40 @@ Fixpoint mvar_lookup (env : list (N * mkey)) (x : N) : option mkey :=
   | (y, p) :: env' => if N.eqb x y then Some p else mvar_lookup env' x
   end.
 
-Fixpoint m_cvec_loop (cells : list (mkey * charvar)) (env : list (N * mkey)) : list mconstraint :=
+(** The loop of try_to_constraint_vec; returns the constraints and the final
+    var_to_pos map (most recent first). *)
+Fixpoint m_cvec_loop (cells : list (mkey * charvar)) (env : list (N * mkey))
+  : list mconstraint * list (N * mkey) :=
   match cells with
-  | [] => []
-  | (k, Lit c) :: cells' => {| cpred := CConst c; cargs := [k] |} :: m_cvec_loop cells' env
+  | [] => ([], env)
+  | (k, Lit c) :: cells' =>
+      let '(cs, env') := m_cvec_loop cells' env in
+      ({| cpred := CConst c; cargs := [k] |} :: cs, env')
   | (k, Var x) :: cells' =>
       match mvar_lookup env x with
-      | Some first => {| cpred := CBindingEq; cargs := [k; first] |} :: m_cvec_loop cells' env
+      | Some first =>
+          let '(cs, env') := m_cvec_loop cells' env in
+          ({| cpred := CBindingEq; cargs := [k; first] |} :: cs, env')
       | None => m_cvec_loop cells' ((x, k) :: env)
       end
   end.
 
-Definition m_cvec (p : mpattern) : list mconstraint :=
-  match m_cvec_loop (m_enum p 0%Z) [] with
+(** The algorithm of the pinned commit (D2): a variable that occurs once yields
+    no constraint. *)
+Definition m_cvec_pinned (p : mpattern) : list mconstraint :=
+  match fst (m_cvec_loop (m_enum p 0%Z) []) with
   | [] => [{| cpred := CBindingEq; cargs := [(0, 0)%Z; (0, 0)%Z] |}]
   | cs => cs
+  end.
+
+(** Current algorithm: first positions of variables that no constraint
+    references get BindingEq(pos, pos), in increasing position order (which is the
+    order of first occurrence, the enumeration being row-major). *)
+Definition m_cvec (p : mpattern) : list mconstraint :=
+  let '(cs, env) := m_cvec_loop (m_enum p 0%Z) [] in
+  let unref := filter (fun pos => negb (existsb (fun c => memb mkey_eqb pos (cargs c)) cs))
+                      (map snd (rev env)) in
+  match cs ++ map (fun pos => {| cpred := CBindingEq; cargs := [pos; pos] |}) unref with
+  | [] => [{| cpred := CBindingEq; cargs := [(0, 0)%Z; (0, 0)%Z] |}]
+  | cs' => cs'
   end.
